@@ -1,6 +1,6 @@
 Require Import FastZ.
 From Dashu Require Import Base.Prelude Float.RoundSpec Float.Contract Float.Model Float.RoundOpsModel Conv.ConvSpec Conv.ConvModel
-  Conv.ConvModel2 Conv.ConvTryProofs Conv.ConvFloat2Proofs Conv.ConvToInt Conv.ConvCastModel.
+  Conv.ConvModel2 Conv.ConvTryProofs Conv.ConvFloat2Proofs Conv.ConvToInt Conv.ConvCastModel Conv.ConvRelaxed.
 From Dashu Require Float.ElemF32 Conv.ConvLargeRoute.
 From DashuGen Require Import ConvParams2.
 Open Scope Z_scope.
@@ -31,4 +31,4 @@ Extraction "model.ml"
   ibig_try_to_ubig fbig_try_to_ibig fbig_try_to_ubig fbig_try_to_rbig rat_try_to_ubig rat_try_to_ibig int_to_repr
   fbig_try_to_prim_x to_int_x repr_to_int_x two_step iapprox_of rat_fast_x rat_try_x
   int_to_f64_ref int_to_f32_ref f64_to_int_ref f32_to_int_ref cast_uint cast_back inf_bits div_round_once
-  ElemF32.mk_f32ops ConvLargeRoute.fbig_to_float_large convert_small_exp_gen.
+  ElemF32.mk_f32ops ConvLargeRoute.fbig_to_float_large convert_small_exp_gen relaxed_try_to_ibig relaxed_try_to_ubig.
